@@ -30,7 +30,8 @@ def run(ctx):
     quick = ctx.tier == "quick"
     ctx.assumptions += ["TLC 1.8.0 + CommunityModules", "atoms are concrete criteria whose identity is read back from the parsed model (property or kind name)",
                         "the Neo4j query builder's deliberate rewrite of negated string predicates is not under test (atom sets without string predicates on that path)",
-                        "updates, projections, ordering and pagination are not yet covered: boolean criteria and kind matchers only"]
+                        "whole queries (QueryShape.tla): returned items, DISTINCT, ORDER BY, SKIP / LIMIT and updating clauses of node and relationship queries built through package query and "
+                        "rendered by the Neo4j query builder; create / merge patterns and literal types other than string, int are not covered"]
     # 1. the expression model: every builder term of depth <= 2 survives Build -> Emit -> Parse under the repaired emitter; the pinned emitter does not
     r = ctx.tlc(AREA, "CypherExprCheck", "CypherExprCheck.cfg", workers=4, timeout=900)
     if not r.clean:
@@ -57,6 +58,29 @@ def run(ctx):
     n_ok, rejected = validate_histories(ctx, AREA, "CypherExprTrace", trace, chunk_events=60000, max_cand=40, parallel=8)
     ctx.cov["traces_validated_against_impl"] += n_ok
     ctx.cov["evaluations"] += n_ok + len(rejected)
+    # 3. whole queries: returned items, DISTINCT, ORDER BY, SKIP / LIMIT, updating clauses
+    if not ctx.replay:
+        sg = ctx.tlc(AREA, "QueryShape", "QueryShape.cfg", workers=4, timeout=900)
+        shapes = ctx.printed_json(sg.out)
+        if len(shapes) < 5000:
+            raise ToolFailure("QueryShape printed %d descriptors:\n%s" % (len(shapes), sg.out[-1500:]))
+        shp = os.path.join(ctx.work, "shapes.ndjson")
+        write_ndjson(shp, shapes)
+        st = os.path.join(ctx.work, "shapes-trace.ndjson")
+        ctx.vh(["front", "shapes", "--in", shp, "--out", st, "--stride", "3" if quick else "1"], timeout=1800)
+        n2, rej2 = validate_histories(ctx, AREA, "CypherExprTrace", st, chunk_events=20000, max_cand=40, parallel=8)
+        ctx.cov["traces_validated_against_impl"] += n2
+        ctx.cov["evaluations"] += n2 + len(rej2)
+        ctx.cov["query_shapes"] = len(shapes)
+        seen_q = set()
+        for hid, ev, events, pos in rej2:
+            exp, got = ev["expected"], ev["parsed"]
+            what = "panic" if ev["panic"] else "emitted-text-does-not-parse" if not ev["reparse_ok"] else next((f for f in ("ret", "distinct", "order", "skip", "limit", "upd", "rel") if exp[f] != got[f]), "note")
+            key = "whole-query/%s/%s" % ("relationship" if exp["rel"] else "node", what)
+            if key in seen_q:
+                continue
+            seen_q.add(key)
+            ctx.report(key, "query built from %s rendered as %r parses back as %s (%s)" % (json.dumps(exp), ev["text"], json.dumps(got), ev["note"]), {"shape": exp})
     nt = sum(1 for t in terms if t["b"] != "atom" and any(x.get("b") in ("and", "or", "xor", "not") for x in (t.get("xs") or [t.get("x") or {}])))
     ctx.cov["distinct_nontrivial"] = nt
     ctx.cov["samples"] += [json.loads(x) for x in open(trace).read().splitlines()[700:702]]
